@@ -432,8 +432,9 @@ func newC19Worker(id int, scheme string, twoNames bool, run *ev.Run, stats *c19S
 
 // samePort: the two host names of the rotation use one port (their address sets must then be
 // disjoint at every moment; only scripted sequences are run on such a worker).
-// backendLocalPort (optional): the backend-local-port setting of the listener; only meaningful for
-// tcp rotations (udp backends of one listener cannot share a fixed local port).
+// backendLocalPort (optional): [0] the backend-local-port setting of the listener; only meaningful for
+// tcp rotations (udp backends of one listener cannot share a fixed local port); [1] = 1: the
+// listener address (= backend-local-address) is the address of the first backend of the pool.
 func newC19WorkerX(id int, scheme string, twoNames, samePort bool, run *ev.Run, stats *c19Stats, backendLocalPort ...int) (*c19Worker, error) {
 	w := &c19Worker{id: id, scheme: scheme, port: 7000, run: run, stats: stats, sinks: newVfSinks(), svc: fmt.Sprintf("svc%d.verif.test", id)}
 	if scheme == "tcp" {
@@ -483,7 +484,12 @@ func newC19WorkerX(id int, scheme string, twoNames, samePort bool, run *ev.Run, 
 	if len(backendLocalPort) > 0 {
 		lp = backendLocalPort[0]
 	}
-	fx, err := newVfFixtureLP(w.svc, "127.0.0.1", 5060, backends, 1200, false, false, false, nil, nil, lp)
+	listenAddr := "127.0.0.1"
+	if len(backendLocalPort) > 1 && backendLocalPort[1] == 1 {
+		// the listener (and with it backend-local-address) sits on the machine of its first backend
+		listenAddr = ip(1)
+	}
+	fx, err := newVfFixtureLP(w.svc, listenAddr, 5060, backends, 1200, false, false, false, nil, nil, lp)
 	if err != nil {
 		return nil, err
 	}
@@ -530,8 +536,13 @@ func TestVerifC19(t *testing.T) {
 			if wi%2 == 1 {
 				scheme = "tcp"
 			}
-			// exhaustive worker: one name over 3 addresses
-			w, err := newC19Worker(wi, scheme, false, run, &stats)
+			// exhaustive worker: one name over 3 addresses (two of the workers live on the machine of
+			// their first backend: backend-local-address equals that backend's address)
+			own := 0
+			if wi == 2 || wi == 5 {
+				own = 1
+			}
+			w, err := newC19WorkerX(wi, scheme, false, false, run, &stats, 0, own)
 			if err != nil {
 				setupErr.Store(err.Error())
 				return
@@ -607,15 +618,24 @@ func TestVerifC19(t *testing.T) {
 				for o := 0; o < 4 && run.Violations() <= 3; o++ {
 					n0 := w.names[0]
 					set := append([]string{}, n0.pool[:3]...)
+					victim := fmt.Sprintf("%s:%d", set[rnd.Intn(3)], n0.port)
+					trace := []string{"n0:{1,2,3}", "one resolved tcp address refuses the connection of a dispatch, accepts again, same resolution again"}
+					early := o%2 == 1
+					if early {
+						// the address is published before its instance accepts connections
+						trace[1] = "one tcp address is resolved before it accepts connections, accepts later, same resolution again"
+						w.sinks.dropTCP(victim)
+						time.Sleep(5 * time.Millisecond)
+					}
 					dynamicHostResolver.addressResolved(n0.name, append([]string{}, set...), nil)
 					n0.apply(true, set)
-					trace := []string{"n0:{1,2,3}", "one resolved tcp address refuses the connection of a dispatch, accepts again, same resolution again"}
-					if !w.quiesce(trace) || !w.dispatchProbe(trace) {
+					if !w.quiesce(trace) || (!early && !w.dispatchProbe(trace)) {
 						break
 					}
-					victim := fmt.Sprintf("%s:%d", set[rnd.Intn(3)], n0.port)
-					w.sinks.dropTCP(victim)
-					time.Sleep(5 * time.Millisecond)
+					if !early {
+						w.sinks.dropTCP(victim)
+						time.Sleep(5 * time.Millisecond)
+					}
 					id := fmt.Sprintf("w%drf%d", w.id, o)
 					for i := 0; i < 3; i++ {
 						w.fx.inject("127.1.0.1", 5060, w.request("OPTIONS", id, fmt.Sprintf("%s-%d", id, i), "a", ""))
